@@ -48,25 +48,37 @@ for git histories the re-exported root id (from scratch, and through a fresh
 SHA map) equals the original tree id and a second from-scratch run with the
 parents gives the same id.
 
-Mutants this was built against (scratch worktrees, all caught; see the final
-report for the failing inputs):
+Mutants this was built against (scratch worktree = /repo HEAD + the proposed
+one-line fix of the finding below, so that the fetch-back half is reachable;
+all caught on seeds 0 and 1 with a concrete history):
   M1 _tree_to_objects: dirty_dirs only gets the new path's directory
-     (removal-only commits keep the parent's tree);
-  M2 ie_to_hexsha: the fall-back blob for a cache miss uses the parent's text
-     (stale id after eviction) — modelled as `lookup_blob_id(ie.file_id,
-     base revision)`;
-  M3 directory_to_tree: the empty-directory check dropped (`return None`
-     removed: empty trees are written);
-  M4 _tree_to_objects: other-parent re-use compares only the kind, not the
-     sha1 (merge takes the other parent's blob id for a changed text);
-  M5 import_git_blob: executable taken from the base mode;
-  M6 import_git_tree: remove_disappeared_children not called (removed files
-     survive a fetch);
-  M7 object_mode: executable symlinks/0o755 swapped with 0o644;
-  M8 fetch.import_git_tree: unusual modes recorded under the name instead of
-     the path;
-  harmless: `for path in sorted(dirty_dirs, reverse=True)` rewritten with an
-  explicit list sort by (-depth, path); stays clean.
+     (`for p in change.path[1:]`; a removal-only commit keeps its parent's
+     root tree) — oracle: warm id != from-scratch id;
+  M2 ie_to_hexsha: the blob rebuilt after a SHA-map miss takes only the first
+     line of the text — caught only by the evicted dict map (warm index map
+     and from-scratch agree);
+  M3 directory_to_tree: the empty-directory rule disabled — T2 (ids differ
+     from the model's) and oracle (the empty tree object is never sent:
+     reachable object missing in the target);
+  M4 find_unchanged_parent_ie: other-parent re-use without comparing the sha1
+     (needs a merge whose text differs from both parents) — oracle;
+  M5 import_git_blob: executable taken from the base mode — oracle (round trip)
+     and T2 (`rt`/`imp` dumps);
+  M6 import_git_tree: remove_disappeared_children skipped — oracle + T2;
+  M7 object_mode: 0o755 and 0o644 swapped — mode sweep, T2, oracle;
+  M9 InterToLocalGitRepository.missing_revisions: parents not walked —
+     oracle (revision not pushed);
+  M10 _tree_to_objects: symlink blob yielded iff *not* changed_content —
+     oracle (reachable object missing in the target repository);
+  harmless: `sorted(dirty_dirs, reverse=True)` replaced by a sort on
+  (-depth, path): stays clean.
+
+Finding (family `fetch-path-chars-are-paths`): fetch.import_git_blob calls
+`InterTree.find_source_paths(decoded_path, ...)` (plural: takes a list, returns
+a dict) with a str; when every character of the path is itself a path of the
+base tree (a changed file named `a`, or `a/a`) the dict reaches `ptree.kind()`
+and the fetch dies with TypeError; for other paths the per-character lookup
+raises NoSuchFile and the whole parent loop is silently skipped.
 """
 import hashlib
 import os
@@ -613,9 +625,42 @@ def single_char_family(nodes_by_rev, parents):
         for p, v in cur.items():
             if v[0] == "d" or base.get(p) == v:
                 continue
-            if all(c in base for c in p):
+            if all(c == "/" or c in base for c in p):     # '/' resolves to the root
                 return True
     return False
+
+
+def moved_dir_suspects(trees, parents, scratch):
+    """classifier of the dirty-directory defect: ids of the tree objects of
+    directories that were moved in a revision in which one of their children
+    was removed or moved elsewhere"""
+    infos = {}
+
+    def info(r):
+        if r not in infos:
+            d = {}
+            with trees[r].lock_read():
+                for path, ie in trees[r].iter_entries_by_dir():
+                    d[ie.file_id] = (path, ie.parent_id, ie.kind)
+            infos[r] = d
+        return infos[r]
+
+    out = set()
+    for r in trees:
+        if not parents[r]:
+            continue
+        bi, ti = info(parents[r][0]), info(r)
+        for fid, (path, par, kind) in bi.items():
+            if par is None:
+                continue
+            new = ti.get(fid)
+            if new is not None and new[1] == par:
+                continue
+            if par in ti and ti[par][2] == "directory" and ti[par][0] != bi[par][0]:
+                sha = scratch[r].get(ti[par][0])
+                if sha:
+                    out.add(sha)
+    return out
 
 
 def plain_dump_all(ch, pre=""):
@@ -712,6 +757,7 @@ def native_case(arg):
         ostore = grepo._git.object_store
         count("pushed", len(revidmap))
         pushed_ok = True
+        suspects = None
         for r in order:
             case = dict(base_case, rev=r.decode(), what="push")
             if r not in revidmap:
@@ -726,7 +772,10 @@ def native_case(arg):
                 objs = {}
                 git_closure(ostore, c.tree, objs)
             except KeyError as e:
-                viol(case, "object %s reachable from the pushed revision %s is missing in the target repository" % (e, r.decode()))
+                if suspects is None:
+                    suspects = moved_dir_suspects(trees, parents, scratch)
+                fam = "moved-dir-lost-child" if e.args and e.args[0] in suspects else None
+                viol(case, "object %s reachable from the pushed revision %s is missing in the target repository" % (e, r.decode()), fam)
                 pushed_ok = False
                 continue
             # the import model on what is really in the git repository
@@ -994,7 +1043,7 @@ def _git_chars_family(hist):
         for p, v in files.items():
             if base.get(p) == v:
                 continue
-            if all(c in basepaths for c in p.decode("utf-8", "surrogateescape")):
+            if all(c == "/" or c in basepaths for c in p.decode("utf-8", "surrogateescape")):
                 return True
     return False
 
@@ -1100,14 +1149,14 @@ def unusual_mode_probe():
 
 
 def run(ctx, nnative=None, ngit=None):
-    nnative = nnative or ctx.pick(8, 70)
-    ngit = ngit or ctx.pick(6, 60)
+    nnative = nnative or ctx.pick(8, 220)
+    ngit = ngit or ctx.pick(6, 160)
     mode_cases(ctx)
     ctx.extra["unusual_mode_probe"] = unusual_mode_probe()
     cases, lines, impls = [], [], []
     corpus = _corpus()
     args = [(("corpus", i), 0, c["script"]) for i, c in enumerate(corpus) if "script" in c]
-    args += [((ctx.seed, "n", i), ctx.rng.choice([14, 22, 34]), None) for i in range(nnative)]
+    args += [((ctx.seed, "n", i), ctx.rng.choice(ctx.pick([14, 22, 34], [14, 30, 60])), None) for i in range(nnative)]
     for R in ctx.pmap(native_case, args, procs=ctx.pick(4, 8)):
         _absorb(ctx, R, cases, lines, impls)
     gargs = [((ctx.seed, "g", i), ctx.rng.choice([3, 5, 8]), None) for i in range(ngit)]
